@@ -809,6 +809,13 @@ class Gen:
                         t2 = dict(self.custom_enum(n + 1))
                         t2['decl_n'] = n + 1
                         one(W, fld(t2, [('r', lo, lo + n - 1)] if n > 1 else [('s', lo)], acc='w'), 'reject', 'custom-wider-than-field-write-only')
+            if k < 8 and W >= 16:
+                # both widths native: a 16-bit enum on an 8-bit write-only field, a 32-bit one on 16 bits, and the narrower ones
+                for fw, tw in ((8, 16), (16, 32), (16, 8), (8, 64)):
+                    if fw < W and tw <= 64:
+                        t3 = dict(self.custom_enum(tw))
+                        t3['decl_n'] = tw
+                        one(W, fld(t3, [('r', 0, fw - 1)], acc='w'), 'reject', 'custom-native-width-mismatch-write-only')
         # malformed attribute token streams (expected verdict by fiat; no structured form)
         for text, tag in [('#[bits(0..=3, rx)]', 'unknown-ident'), ('#[bits(0..3, rw)]', 'exclusive-range'),
                           ('#[bits(0..=, rw)]', 'missing-upper'), ('#[bits(..=3, rw)]', 'missing-lower'),
